@@ -185,18 +185,23 @@ def analyse(case, o):
 
 
 def zero_bound_predicted(case):
-    """Some non-best alternative's bound vector is all zeros (computed from the reference ranking of the
-    un-dropped decision maker, the way the implementation orders ties)."""
+    """Some non-best alternative's bound vector is all zeros: the signature of the known non-termination.  The
+    reference ranking is taken as the checker sees it (its tie order; alternatives the decision maker left out listed
+    last), the bounds are computed here from their definition - not by the implementation, so that a change which
+    wrongly produces a zero bound is not mistaken for the known finding."""
+    from skcriteria.cmp.ranks_rev.rank_inv_check import RankInvariantChecker
     from .. import methods as M
     try:
         dm = I.mk(case)
-        r = M.make({"name": case["dmaker"]}).evaluate(dm)
-        order = list(r.to_series().sort_values().index)
-        if case.get("drop") == "every":
-            # the decision maker never ranks the dropped alternative: the checker lists it last in the reference
-            # ranking (allow_missing_alternatives), so it is the one bounded by the aggregate
-            d = case["alternatives"][-1]
-            order = [a for a in order if a != d] + [d]
+        drop_alt = case["alternatives"][-1] if case["drop"] else None
+        rec = Recorder(M.make({"name": case["dmaker"]}), drop=drop_alt, drop_from=0 if case["drop"] == "every" else 2)
+        strat = {"median": "median", "mean": "mean", "max": np.max, "min": np.min}[case["strategy"]]
+        chk = RankInvariantChecker(rec, repeat=case["repeat"], last_diff_strategy=strat, random_state=case["seed"],
+                                   allow_missing_alternatives=case["allow_missing"])
+        orank = chk._add_mutation_info_to_rank(rank=rec.evaluate(dm), mutated=None, noise=None, iteration=None,
+                                               full_alternatives=dm.alternatives,
+                                               allow_missing_alternatives=case["allow_missing"])
+        order = [str(a) for a in orank.to_series().sort_values().index.to_numpy(copy=True)]
         rows = [case["matrix"][case["alternatives"].index(a)] for a in order[1:]]
         gaps = [[abs(x - y) for x, y in zip(rows[k], rows[k + 1])] for k in range(len(rows) - 1)]
         m = len(case["weights"])
